@@ -84,6 +84,48 @@ def job_retention(ctx, rule):
             src = [pathx.desc(thir.peel(m["e"])["a"][0]) for m in fl if thir.peel(m["e"]).get("k") == "call" and thir.peel(m["e"]).get("a")]
             ctx.require("gc" in src, rule, "remove-in-gc-loop", "jobs.remove(id) runs only over the ids selected by the gc closure", w.loc(n["l"]), detail=str(src))
 
+    # ... and on the handler's side a second job is never created for an Id that has one: get_or_create_job creates only when the lookup in the
+    # snapshot found nothing, and nothing in Handler takes entries out of (or puts entries into) that snapshot
+    H = "watchexec::action::handler::Handler"
+    goc = ctx.anchor_fn(rule, H + "::get_or_create_job")
+    groot = thir.root(goc)
+    direct = [n for c, n in thir.calls_in(groot) if strip_generics(c).endswith(("Handler::create_job_with_id", "Handler::create_job", "job::task::start_job"))]
+    lazy = [pathx.desc(thir.peel(thir.root(c))).replace("^", "") for c in facts.children(goc) if c.kind == "closure"]
+    top = pathx.desc(thir.peel(groot))
+    ok_lazy = top in ("Option::unwrap_or_else(Handler::get_job(self, id), closure)", "Option::unwrap_or_else(Option::cloned(HashMap::get(self.extant, id)), closure)") \
+        and lazy == ["Handler::create_job_with_id(self, id, Fn::call(command, ()))"] and not direct
+    ok_branch = False
+    if direct and not lazy:
+        # spelled with `match` / `if let`: every creation must sit on a path where the lookup yielded None
+        ok_branch = True
+        for q in pathx.Enum(interesting=lambda d_: strip_generics(d_).endswith(("create_job_with_id", "create_job", "start_job"))).paths(groot):
+            created = [e for e in q.ev if e[0] == "call" and strip_generics(e[1]).endswith(("create_job_with_id", "create_job", "start_job"))]
+            found = None
+            for e in q.ev:
+                if e[0] in ("iflet", "arm") and ("get_job(self, id)" in e[1] or "HashMap::get(self.extant, id)" in e[1]):
+                    pats = e[2] if isinstance(e[2], (tuple, list)) else (e[2],)
+                    some = any(str(x).startswith("Some") for x in pats)
+                    found = (some and e[3]) or ((not some) and not e[3]) if e[0] == "iflet" else some
+            if bool(created) != (found is False) or len(created) > 1:
+                ok_branch = False
+    ctx.require(ok_lazy or ok_branch, rule, "create-only-when-absent", "get_or_create_job creates a job exactly when the Id has none in the snapshot (lazily, after the lookup)",
+                goc.loc(goc.line), detail="%s / closures %s / direct %d" % (top, lazy, len(direct)),
+                fail="get_or_create_job creates a job although the Id already has one (%s): a second job task is registered under the Id and the live one's handle is replaced" % top)
+    muts = []
+    for f in facts.fns_matching(r"^watchexec::action::handler::Handler::[a-z_]+$"):
+        for g in [f] + facts.descendants(f):
+            if not getattr(g, "thir", None):
+                continue
+            for c, n in thir.calls_in(thir.root(g)):
+                nm = strip_generics(c).split("::")[-1]
+                if n["a"] and pathx.desc(n["a"][0]).replace("^", "").lstrip("&") == "self.extant" and nm not in ("get", "iter", "contains_key", "len", "is_empty", "keys", "values", "deref", "borrow", "as_ref"):
+                    muts.append("%s in %s" % (nm, f.def_.split("::")[-1]))
+            for a in thir.find(thir.root(g), "assign"):
+                if "self.extant" in pathx.desc(a["a"]).replace("^", ""):
+                    muts.append("assignment in %s" % f.def_.split("::")[-1])
+    ctx.require(not muts, rule, "snapshot-read-only", "Handler only reads its snapshot of existing jobs (get / iter)", goc.loc(goc.line), detail=str(muts),
+                fail="Handler modifies its snapshot of existing jobs (%s): a later lookup of the same Id in the same action finds nothing and creates a second job" % muts)
+
 
 
 def run(ctx):
